@@ -50,5 +50,5 @@ pub fn node(data: &[u8]) -> c16::Case {
     let exact = idx(&mut u, 2) == 0;
     let n_del = idx(&mut u, 5);
     let delay_lens = (0..n_del).map(|_| 1 + idx(&mut u, 200)).collect();
-    c16::Case { kind, wrapper, bufs_in, n_out, calls, exact, delay_lens, sig_channels: 1 + idx(&mut u, 4), inner_bufs: idx(&mut u, 5), salt: idx(&mut u, 10_000) as u32, sig_len: if idx(&mut u, 3) == 0 { Some(idx(&mut u, 300)) } else { None }, inner_kind: idx(&mut u, 3) as u8, scale_exp: [0i16, 0, 0, -30, -100, -140][data.last().map_or(0, |b| *b as usize % 6)], self_loop: (data.len() % 3) as u8, sparse: data.len() % 4 == 0, dup_last: false }
+    c16::Case { kind, wrapper, bufs_in, n_out, calls, exact, delay_lens, sig_channels: 1 + idx(&mut u, 4), inner_bufs: idx(&mut u, 5), salt: idx(&mut u, 10_000) as u32, sig_len: if idx(&mut u, 3) == 0 { Some(idx(&mut u, 300)) } else { None }, inner_kind: idx(&mut u, 3) as u8, scale_exp: [0i16, 0, 0, -30, -100, -140][data.last().map_or(0, |b| *b as usize % 6)], self_loop: (data.len() % 3) as u8, sparse: data.len() % 4 == 0, dup_last: false, orphan_inputs: 0 }
 }
